@@ -123,6 +123,19 @@ Theorem timeout_result : forall fl h0 script sched k,
 Proof. exact timeout_result_lemma. Qed.
 Print Assumptions timeout_result.
 
+(* 499_or_503.  The status of the timeout reply is decided by the FIRST Done event of the
+   schedule (ctx.Err() is sticky): 499 for a cancellation, 503 for a deadline — whatever
+   Done events follow, and whatever the handler wrote, in whatever order (WriteHeader after
+   Write, several WriteHeader, 1xx codes, invalid codes) *)
+Theorem timeout_status_by_first_done : forall fl h0 script sched k,
+  sst (run (init fl h0 script) sched) = STimeoutRet k ->
+  first_done sched = Some k /\
+  rres (rw (run (init fl h0 script) sched)) <> None /\
+  (fl = false \/ has_flush script = false ->
+   rres (rw (run (init fl h0 script) sched)) = Some (timeout_code k, h0)).
+Proof. exact timeout_kind_lemma. Qed.
+Print Assumptions timeout_status_by_first_done.
+
 (* the panic a script ends in does not depend on flushing or timing *)
 Theorem script_panic_is_spec : forall fl h0 acts,
   snd (href (start fl h0) acts) = spec_panic fl false acts.
@@ -516,6 +529,15 @@ Example ex_flush_noflusher :
   let s := run (init false ex_h0 ex_flush_script) [EH; EH; EH; EH; EH; EH; ED KDeadline; ES BTimeout; EH; EH; EH] in
   rw s = timeout_resp false ex_h0 KDeadline.
 Proof. vm_compute. reflexivity. Qed.
+
+(* cancellation first, deadline later: 499; the handler wrote 1xx, a status after its
+   first Write and a second status — none of it reaches the client *)
+Example ex_499_not_503 :
+  let script := [AWriteHeader 201; AWriteHeader 103; AWrite [200]; AWriteHeader 404; AWriteHeader 700] in
+  let s := run (init true ex_h0 script) [EH; EH; ED KCancel; EH; ED KDeadline; ES BTimeout; EH; EH] in
+  sst s = STimeoutRet KCancel /\ rw s = timeout_resp true ex_h0 KCancel /\
+  first_done [EH; EH; ED KCancel; EH; ED KDeadline; ES BTimeout; EH; EH] = Some KCancel.
+Proof. vm_compute. repeat split. Qed.
 
 Example ex_returns_at_deadline_hyps :
   let s := run (init true ex_h0 ex_script) [EH; EH; ED KDeadline] in
